@@ -15,6 +15,19 @@ the two registers change one cycle later.  The token detector is the device's ow
 (`filter_by_address=True`, address input = the device address register), composed below exactly
 as in `USBDevice`.
 
+Bus reset.  The device-state block of `USBDevice.elaborate` is
+
+    with m.If(endpoint_collection.address_changed):  m.d.usb += address.eq(endpoint_collection.new_address)
+    ...
+    with m.If(reset_sequencer.bus_reset):             m.d.usb += [address.eq(0), configuration.eq(0)]
+
+(the bus-reset block is later in program order, so it wins over an address update of the same
+cycle).  `reset_sequencer.bus_reset` is the port `reset_detected`; it is an *input* of this model
+(`DevIn.busReset`), the reset sequencer itself is C19's subject.  A bus reset as coded touches the
+address register (which feeds the token detector's address filter) and the configuration register
+(not modelled: nothing in the frame logic reads it) — and neither `frame_number` nor
+`microframe_number`, nor any register of the token detector.
+
 Core Lean only.
 -/
 namespace LunaVerif.Frame
@@ -50,7 +63,11 @@ def finalState : State → List TokenDetector.Regs → State
   | s, [] => s
   | s, r :: rs => finalState (step s r).1 rs
 
-/-! ### The device: token detector + frame logic on the UTMI receive port -/
+/-! ### The device: token detector + frame logic on the UTMI receive port
+
+`devStep` is the composition for a given value of the address register (the form C01's theorems
+speak about: any schedule of addresses); `dStep` below adds the address register itself with the
+bus-reset and address-update inputs, as wired in `USBDevice`. -/
 
 structure DevState where
   tok   : TokenDetector.State
@@ -74,5 +91,44 @@ def devRun : DevState → List TokenDetector.In → List Out
 def devFinal : DevState → List TokenDetector.In → DevState
   | s, [] => s
   | s, i :: is => devFinal (devStep s i.rx i.address).1 is
+
+/-! ### The device with its address register, bus reset and address updates -/
+
+/-- Inputs of one clock of the device as far as the frame logic can possibly see them. -/
+structure DevIn where
+  rx             : RxCycle
+  busReset       : Bool    -- reset_sequencer.bus_reset  (= the `reset_detected` port)
+  addressChanged : Bool    -- endpoint_collection.address_changed
+  newAddress     : Nat     -- endpoint_collection.new_address, Signal(7)
+deriving Repr
+
+structure DState where
+  dev     : DevState
+  address : Nat            -- Signal(7)
+deriving Repr
+
+structure DOut where
+  ports         : Out
+  activeAddress : Nat      -- endpoint_collection.active_address = the address register
+deriving Repr
+
+def dInit : DState := ⟨devInit, 0⟩
+
+/-- Next value of the address register: `If(address_changed)` first, `If(bus_reset)` later in
+program order (wins). -/
+def nextAddress (a : Nat) (i : DevIn) : Nat :=
+  if i.busReset then 0 else if i.addressChanged then i.newAddress % 128 else a
+
+def dStep (s : DState) (i : DevIn) : DState × DOut :=
+  let (d', o) := devStep s.dev i.rx s.address
+  (⟨d', nextAddress s.address i⟩, ⟨o, s.address⟩)
+
+def dRun : DState → List DevIn → List DOut
+  | _, [] => []
+  | s, i :: is => (dStep s i).2 :: dRun (dStep s i).1 is
+
+def dFinal : DState → List DevIn → DState
+  | s, [] => s
+  | s, i :: is => dFinal (dStep s i).1 is
 
 end LunaVerif.Frame
